@@ -2,18 +2,18 @@ SPECIFICATION Spec
 CONSTANTS
   Seeds <- MCSeeds
   ScenariosOf <- MCScenariosOf
-  MaxRead = 2
+  MaxRead = 12
   KF_FastInvertSkipsStopLine = FALSE
   KF_ReaderByteCountIgnoresPartial = FALSE
-  MaxLines = 3
-  Bodies <- BodiesMX
-  CtxMax = 2
+  MaxLines = 2
+  Bodies <- BodiesNul
+  CtxMax = 1
   Terms = {"lf"}
   Strats = {"reader", "slice"}
   Paths = {"slow", "fast"}
   Caps = {2}
-  Flags = {"inv", "pass", "stopnm"}
-  Bins = {"none"}
-  PlanKinds = {"stop", "err", "fault"}
+  Flags = {"inv"}
+  Bins = {"quit", "convert"}
+  PlanKinds = {"stop", "err"}
 INVARIANTS BufInv ModelOK Emitted
 VIEW View
